@@ -344,6 +344,8 @@ func (x *Exec) loadPath(st *State, p *PtrPath) *Val {
 	if p.Base != pbCell {
 		x.typeFacts(out)
 		x.refFacts(st, out)
+	} else if len(chain) > 0 {
+		x.typeFacts(out)
 	}
 	return out
 }
